@@ -74,7 +74,11 @@ func convertObjectToASTNode(obj object.Object) ast.Node {
 		}
 		return &ast.Boolean{Base: ast.Base{Token: t}, Val: obj.Value}
 	case object.Quote:
-		return obj.Node
+		// A copy: the same argument unquoted at two places of a template (or by two expansions) makes two trees, as the
+		// two texts written by hand would. Sharing the node made two function literals one and the same function
+		// (functions are told apart by their body): m=macro(f){quote(unquote(f)(unquote(f),0))} called with
+		// func(g,d){if d==0{y=42;g(g,1)}else{y}} found y in the "other" function's call.
+		return ast.ModifyNoOk(obj.Node, func(n ast.Node) ast.Node { return n })
 	default:
 		log.Warnf("convertObjectToASTNode: unsupported object type %T", obj)
 		// Not a nil node (which crashes the printer and the evaluator): an error(...) call carrying the reason.
